@@ -102,25 +102,30 @@ def family_F1(quick):
   """Every GFA1 graph on n <= 3 segments, <= 3 links over all unordered end
   pairs (self-links, hairpins, two links between the same two segments on
   different ends), <= 1 containment (ordered pair, contained segment in both
-  orientations; quick tier, n = 3: forward only), RC:i:7 on every record.
-  Quick tier leaves out the slice n = 3 & 3 links & 1 containment."""
+  orientations; forward only when n = 3 in the quick tier and in the slice
+  n = 3 & 3 links), RC:i:7 on every record.  The quick tier leaves out the
+  slice n = 3 & 3 links & 1 containment and tries only the factors 2 and 3 on
+  n = 3; the thorough tier multiplies every segment, except in that slice,
+  where it multiplies A (the family is closed under renaming)."""
   for n in (1, 2, 3):
     names = ["A", "B", "C"][:n]
     pairs = end_pairs(names)
-    conts = [None] + containments(
-        names, (("+", "+"),) if (quick and n == 3) else
-        (("+", "+"), ("+", "-")))
     for nl in range(0, 4):
+      full = (n == 3 and nl == 3)
+      conts = [None] + containments(
+          names, (("+", "+"),) if ((quick and n == 3) or full) else
+          (("+", "+"), ("+", "-")))
       for combo in itertools.combinations(pairs, nl):
         links = [link_line(p, q) for p, q in combo]
         for cont in conts:
-          full = (n == 3 and nl == 3 and cont is not None)
-          if quick and full:
+          if quick and full and cont is not None:
             continue
           lines = g1_graph(names, links, cont, ["RC"], ["RC"])
-          segs = names if (not quick and not full) else ["A"]
+          segs = names if not (quick or (full and cont is not None)) \
+              else ["A"]
+          fs = (2, 3) if (quick and n == 3) else FACTORS
           yield unit("F1", "gfa1", lines,
-                     [(m, k, p) for m in segs for k, p in calls()])
+                     [(m, k, p) for m in segs for k, p in calls(fs)])
 
 
 def subsets(xs):
@@ -133,7 +138,8 @@ def family_F2(quick):
   """Count tags: every subset of {RC, FC, KC} on the segments x every subset
   on the edges, plus a B array and a Z tag (must be copied unchanged and must
   not be shared between the copies); n <= 2 segments, <= 1 link over all end
-  pairs, <= 1 containment in all four orientation pairs."""
+  pairs, <= 1 containment in all four orientation pairs (quick tier: exactly
+  one edge, policy off; thorough: policies off, L, R)."""
   names = ["A", "B"]
   pairs = end_pairs(names)
   conts = [None] + containments(
@@ -144,6 +150,8 @@ def family_F2(quick):
       links = [link_line(p, q) for p, q in combo]
       for cont in conts:
         if not links and cont is None:
+          continue
+        if quick and links and cont is not None:
           continue
         for st in subsets(["RC", "FC", "KC"]):
           for et in subsets(["RC", "FC", "KC"]):
@@ -187,9 +195,10 @@ def family_F3(quick):
             if k == 3:
               modes.append(("dup", ["X", "X"]))
             for nm, names in modes:
-              for dist in (None, "auto"):
-                for arg in ("name", "line"):
-                  cs.append((m, k, dist, nm, names, arg))
+              for dist, arg in ((None, "name"), ("auto", "line")) if quick \
+                  else ((None, "name"), (None, "line"), ("auto", "name"),
+                        ("auto", "line")):
+                cs.append((m, k, dist, nm, names, arg))
           yield unit("F3", "gfa1", lines, cs)
 
 
@@ -245,7 +254,7 @@ def family_F4(quick):
               continue
             lines = [T(["S", s, str(G2LEN[s]), "*", "RC:i:7"]) for s in names]
             lines += [T(e + ["RC:i:7"]) for e in es]
-            segs = ["A"] if (quick or named) else names
+            segs = ["A"] if (quick or named or n == 3) else names
             yield unit("F4n" if named else "F4", "gfa2", lines,
                        [(m, k, p) for m in segs for k, p in calls()
                         if not (named and k < 2)])
@@ -442,8 +451,9 @@ def run_case(c):
       probs.append(("c02-" + cl, "invariant", d))
     try:
       with guard():
-        g2 = gfapy.Gfa(after, version=v, vlevel=1)
-        again = text_of(g2)
+        # (an unchanged text is the input, which has just been parsed)
+        again = after if after == before else \
+            text_of(gfapy.Gfa(after, version=v, vlevel=1))
       if sorted(again) != sorted(after):
         probs.append(("reparse", "differs", "re-parsed text differs"))
     except BaseException as e:
@@ -550,6 +560,7 @@ def run_chunk(units):
   cases = [c for u in units for c in expand(u)]
   r = new_result()
   r["viol_items"] = []
+  r["cand_samples"] = []
   r["counts"] = {}
   r["skips"] = {}
   for c in cases:
@@ -560,7 +571,11 @@ def run_chunk(units):
         continue
     r["evaluations"] += 1
     r["transitions"] += 1
-    if c["k"] >= 0 and info["exc"] is None:
+    if info["exc"] is None or c["k"] < 0 or \
+        c["nm"] in ("taken", "taken-path", "dup", "own"):
+      # the outcome was compared with the reference model's prediction
+      # (not the case after an exception on a legal call, which is reported
+      # as such)
       r["traces"] += 1
     after = info["after"] or []
     r["states"].add(h([sorted(after), info["exc"]]))
@@ -574,9 +589,10 @@ def run_chunk(units):
     r["outcomes"].add(oc)
     fk = c["fam"]
     r["counts"][fk] = r["counts"].get(fk, 0) + 1
-    if not probs and len(r["samples"]) < 2 and c["k"] >= 2 and nedges >= 2:
-      r["samples"].append({"input": input_str(c), "after": after,
-                           "distribution_end": info["end"]})
+    if not probs and c["k"] >= 2 and nedges >= 2 and \
+        int(h(input_str(c)), 16) % 1009 == 0:
+      r["cand_samples"].append({"input": input_str(c), "after": after,
+                                "distribution_end": info["end"]})
     seen = set()
     for cl, kind, detail in probs:
       if (cl, kind) in seen:
@@ -656,13 +672,23 @@ def run(ctx):
       "paths through the multiplied segment (F3 only): nothing demanded of the "
       "P line",
       "vlevel 1 (default)"]
+  from .. import runner
+  n, fails = ref.selftest(os.path.join(runner.REPO, "tests", "testdata"))
+  if fails or n == 0:
+    raise RuntimeError("reference model self-test failed: {} {}".format(
+        n, fails[:3]))
+  ctx.extra["reference_selftest"] = (
+      "{} stored results of tests/testdata/links_distri.* accepted by the "
+      "reference model, 2 corruptions of each rejected".format(n))
   cross = hashseed_start()
   items = []
+  cand = []
   counts, skips, per = {}, {}, {}
   ncases = 0
   for r in ctx.pimap(run_chunk, chunks(all_units(ctx.quick), 8),
                      chunksize=1):
     items += r.pop("viol_items")
+    cand += r.pop("cand_samples")
     ncases += r.pop("n_viol_cases")
     for k, v in r.pop("counts").items():
       counts[k] = counts.get(k, 0) + v
@@ -671,10 +697,9 @@ def run(ctx):
     for k, v in r.pop("viol_per_group").items():
       per[k] = per.get(k, 0) + v
     ctx.merge(r)
-  ctx.samples.sort(key=lambda s: s["input"])
-  pick = ctx.samples[ctx.seed % max(1, len(ctx.samples)):][:6] + \
-      ctx.samples[:6]
-  ctx.samples = pick[:8]
+  # which explored cases are printed depends on the seed only
+  cand.sort(key=lambda s: h(s["input"] + str(ctx.seed)))
+  ctx.samples = cand[:8]
   for grp, d, payload in minimal(items):
     ctx.violation(to_violation(grp, payload))
   ctx.extra["cases_per_family"] = dict(sorted(counts.items()))
